@@ -49,6 +49,11 @@ type Case struct {
 	Decision string          `json:"decision,omitempty"` // commit | rollback (what the business callback decides when nothing failed)
 	Target   string          `json:"target,omitempty"`   // holder | fresh (phase two on a process that never saw phase one)
 	Plan     string          `json:"plan,omitempty"`     // "" = enumerate; none | db:<k> | drop:<k> | register-fail | register-transport
+	// Outlives: the branch execution timeout is 30 ms for this case and the explicit local transaction waits
+	// 60 ms before its Commit: the branch is given up (rolled back, error to the caller), plan "none" only
+	Outlives bool `json:"outlives,omitempty"`
+	// StmtBg: the statements of the explicit transaction run with context.Background() (only BeginTx got the xid)
+	StmtBg bool `json:"stmt_bg,omitempty"`
 }
 
 // ---- identifiers -----------------------------------------------------------------------------
@@ -198,8 +203,17 @@ func execute(c Case, plan string) (*run, *pt.Failure) {
 	case plan == "register-transport":
 		env.TC.Script(message.MessageTypeBranchRegister, faketc.Action{Kind: faketc.TransportError})
 	}
+	outlives := c.Outlives && plan == "none" && c.Branch.Mode == "tx"
+	if outlives {
+		defer seatasql.SetXaBranchExecutionTimeoutForVerif(seatasql.SetXaBranchExecutionTimeoutForVerif(30 * time.Millisecond))
+	}
 	_, gerr := atenv.Global("c17", func(cx context.Context) error {
-		r.res = atenv.RunBranch(cx, env.XA, c.Branch.Mode, c.Branch.Via, false, texts(r.names, c.Branch))
+		stmts := texts(r.names, c.Branch)
+		r.res = atenv.RunBranchOpt(cx, env.XA, atenv.BranchOpts{Mode: c.Branch.Mode, Via: c.Branch.Via, StmtBg: c.StmtBg && c.Branch.Mode == "tx", Probe: func(i int, _ atenv.StmtResult) {
+			if outlives && i == len(stmts)-1 {
+				time.Sleep(60 * time.Millisecond)
+			}
+		}}, stmts)
 		if r.res.Failed() {
 			return errors.New("business failed: " + r.res.FirstErr())
 		}
@@ -396,6 +410,20 @@ func judge(c Case, plan string, r *run) *pt.Failure {
 	// "any failure before a successful prepare rolls the branch back": when the caller has its error, the
 	// database holds no unprepared branch any more (judged when the injected failure is the first thing that
 	// went wrong, so that the clean-up itself ran unhindered)
+	if c.Outlives && plan == "none" && c.Branch.Mode == "tx" {
+		// the branch outlived its execution timeout: the caller gets an error and the branch is rolled back
+		if !r.res.Failed() {
+			return pt.Failf(sig("timed-out-branch-not-reported"), "the branch outlived its execution timeout, the caller saw no error\n%s", info())
+		}
+		for x, st := range r.leftPhaseOne {
+			if st != "PREPARED" && byIdent[x] != nil {
+				return pt.Failf(sig("failed-branch-not-rolled-back"), "the branch outlived its execution timeout and phase one returned, the database still holds %q in state %s\n%s", x, st, info())
+			}
+		}
+		for x := range committed {
+			return pt.Failf(sig("commit-after-failed-phase-one"), "%q was committed although its branch had timed out\n%s", x, info())
+		}
+	}
 	if strings.HasPrefix(plan, "db:") && r.fired && failedBeforePrepare {
 		first := true
 		for _, e := range r.journal {
@@ -508,6 +536,13 @@ func runScenario(c Case) *pt.Failure {
 			return fl
 		}
 		return judge(c, c.Plan, r)
+	}
+	if c.Outlives {
+		r, fl := execute(c, "none")
+		if fl != nil {
+			return fl
+		}
+		return judge(c, "none", r)
 	}
 	base, fl := execute(c, "none")
 	if fl != nil {
@@ -627,6 +662,10 @@ func TestPropScenarios(t *testing.T) {
 		}
 		c := Case{Kind: "scenario", Tables: tables, Branch: br, Decision: rapid.SampledFrom([]string{"commit", "commit", "rollback"}).Draw(rt, "decision"),
 			Target: rapid.SampledFrom([]string{"holder", "holder", "fresh"}).Draw(rt, "target")}
+		if br.Mode == "tx" && rapid.IntRange(0, 5).Draw(rt, "outlives") == 0 {
+			c.Outlives = true
+		}
+		c.StmtBg = br.Mode == "tx" && rapid.IntRange(0, 3).Draw(rt, "stmtBg") == 0
 		planFailed = ""
 		fl := runCase(c)
 		if planFailed != "" {
@@ -636,7 +675,7 @@ func TestPropScenarios(t *testing.T) {
 		for _, s := range br.Stmts {
 			ks = append(ks, s.Kind)
 		}
-		ctx.Rec.Case("scenario", last.prepared, fmt.Sprintf("%s|%s|%s|%s|%s|%s", br.Mode, br.Via, strings.Join(ks, "+"), c.Decision, c.Target, version), c, "kind:scenario", "mode:"+br.Mode, "target:"+c.Target, "server:"+version)
+		ctx.Rec.Case("scenario", last.prepared, fmt.Sprintf("%s|%s|%s|%s|%s|%s|%v", br.Mode, br.Via, strings.Join(ks, "+"), c.Decision, c.Target, version, c.Outlives), c, "kind:scenario", "mode:"+br.Mode, "target:"+c.Target, "server:"+version, fmt.Sprintf("outlives-timeout:%v", c.Outlives))
 		ctx.Judge(rt, "scenario", fl, c)
 	})
 }
